@@ -16,7 +16,8 @@
 
    `now` is the current date (year, month, day): the only use the code makes of the clock for absolute texts. *)
 From LR Require Import lib.Base model.GoTime model.Regex model.DateFmt model.DateOk model.LqlTime gen.DateTables.
-From LR Require Import proofs.GoTimeP proofs.RegexP proofs.DateFmtP proofs.LqlTimeP proofs.C20TablesP.
+From LR Require Import proofs.GoTimeP proofs.RegexP proofs.DateFmtP proofs.LqlTimeP proofs.C20TablesP model.LineParse proofs.LineParseP.
+From Coq Require Import Strings.String.
 Open Scope Z_scope.
 
 (* ---- the calendar arithmetic under every theorem below: civil date <-> day number, all of Z, both directions ---- *)
@@ -125,6 +126,69 @@ Proof.
   intros m sc m' sc' mult H1 H2 H3 H4. split; [apply rel_nonneg; assumption|apply rel_monotone; assumption].
 Qed.
 Print Assumptions C20_relative_monotone.
+
+(* ---- at the start of a log line read by the collector (model/LineParse.v: lineParser.parse) ----
+   The line parser remembers the format that dated the last line and tries it first; otherwise, in state 'parsing', it
+   asks the whole list; after 10 consecutive lines that nothing parsed it goes 'skipping' and gives the next 10, 20, 40 ...
+   lines the last detected date without looking at them. *)
+
+(* the remembered format is the line's format: the record gets the instant the text denotes, in EVERY parser state
+   (any counters, parsing or skipping), for every format of the tables but the DDDD one, every civil time, every
+   separator-led rest of the line *)
+Theorem C20_line_current_format : forall f, In f known_formats -> f <> dddd_format ->
+  forall k cf, nth_error collector_list k = Some (Some cf) -> compile_with terms_table f = Some cf ->
+  forall now s c rest, lp_cur s = Some k -> civil_ok (the_tokens f) c -> sep_ok rest ->
+  lp_step now collector_list s (render_toks (the_tokens f) c ++ rest) = (s, Some (denotes now (the_tokens f) c)).
+Proof.
+  intros f Hin Hne k cf Hk Hcf now s c rest Hcur Hc Hs.
+  destruct (self_of_table f (in_or_app _ _ _ (or_introl Hin)) Hne) as (l & cf' & Ht & Hcf' & Hp).
+  rewrite Hcf in Hcf'. injection Hcf' as <-.
+  assert (El : the_tokens f = l) by (unfold the_tokens; rewrite Ht; reflexivity). rewrite El in *.
+  apply (step_by_cur code_resets_counter now collector_list s _ k cf _ Hcur Hk). apply Hp; assumption.
+Qed.
+Print Assumptions C20_line_current_format.
+
+(* in state 'parsing', a line that the remembered format (if any) does not parse is given what the whole list says,
+   and that format is remembered *)
+Theorem C20_line_detect : forall now fs s text k tm,
+  (forall j cf, lp_cur s = Some j -> nth_error fs j = Some (Some cf) -> parse_one now cf text = None) ->
+  lp_state s = Parsing -> parse_all now fs text = Some (k, tm) ->
+  snd (lp_step now fs s text) = Some tm /\ lp_cur (fst (lp_step now fs s text)) = Some k.
+Proof. intros now fs s text k tm. exact (step_parsing code_resets_counter now fs s text k tm). Qed.
+Print Assumptions C20_line_detect.
+
+(* a record's date is never invented: it is the last detected date, or what a format of the list reads off the line *)
+Theorem C20_line_answers : forall now fs s text r, snd (lp_step now fs s text) = r ->
+  r = lp_last s \/ (exists k cf, nth_error fs k = Some (Some cf) /\ parse_one now cf text = r /\ r <> None) \/
+  (exists k tm, parse_all now fs text = Some (k, tm) /\ r = Some tm).
+Proof. intros now fs s text r. exact (step_answers code_resets_counter now fs s text r). Qed.
+Print Assumptions C20_line_answers.
+
+(* Full statement for lines: after ANY history of lines, a line the format list can date is given that date.
+   Refuted: after ten lines without a date (a stack trace) the parser is 'skipping' and the next dated line is
+   given no date at all (the last detected one: none yet) *)
+Definition C20_line_statement : Prop := forall now history text k tm,
+  parse_all now collector_list text = Some (k, tm) ->
+  snd (lp_step now collector_list (fst (lp_run now collector_list lp_init history)) text) = Some tm.
+
+Theorem C20_line_refuted : ~ C20_line_statement.
+Proof.
+  intros H.
+  specialize (H w_now (repeat (B "  at some.stack.Frame(x)") 10) (B "2019-05-25 15:07:09 done") 49%nat (1558796829, 0)).
+  unfold collector_list in H. rewrite <- known_c_eq in H.
+  assert (E : parse_all w_now known_c (B "2019-05-25 15:07:09 done") = Some (49%nat, (1558796829, 0))) by (vm_compute; reflexivity).
+  specialize (H E). vm_compute in H. discriminate H.
+Qed.
+Print Assumptions C20_line_refuted.
+
+(* the parser state reachable by any history keeps its counters inside their bounds (so 'skipping' is entered only
+   after 10 consecutive undated lines: every detection clears the counter) *)
+Theorem C20_line_counters : forall now fs history,
+  lp_ok (fst (lp_run now fs lp_init history)).
+Proof.
+  intros now fs history. exact (lp_ok_run now fs history lp_init lp_ok_init).
+Qed.
+Print Assumptions C20_line_counters.
 
 (* ---- non-vacuity ---- *)
 (* a Saturday afternoon satisfies civil_ok for every token list, a format of the table satisfies the hypotheses of
